@@ -12,6 +12,7 @@ from .. import terms as tm
 from .. import oracles
 from ..arity import Arity, FLAG_CORRELATED, length
 from ..model import AnalysisError
+from . import common
 from .common import ob, need, call_name, kwargs_chain, role_of, roles, lit, is_lit
 from .. import symeval
 
@@ -1313,7 +1314,11 @@ def rule_padlabels(ctx):
     yield ob(R, f, "util.adjust_intervals:pad-defaults-distinct", a != b and isinstance(a, str) and isinstance(b, str), "default start_label %r and end_label %r differ" % (a, b) if a != b else "default start_label and end_label are both %r: an estimate padded at both ends gets two segments of one class" % (a,))
 
 
+
+
 RULES = [
+    ("C03.TABLES", 40, common.shared("c10", "rule_tables", "C03.TABLES")),
+    ("C03.HELPERDEFAULTS", 3, common.rule_helperdefaults("C03.HELPERDEFAULTS")),
     ("C03.KWVIEW", 53, rule_kwview),
     ("C03.PADLABELS", 1, rule_padlabels),
     ("C03.BEATTRIM", 1, rule_beattrim),
